@@ -119,7 +119,19 @@ struct End {
     written: BTreeMap<u64, u64>,
     nread: BTreeMap<u64, u64>,
     outbox: Vec<InFlight>,
+    /// frames declared lost: the network may still deliver them late, the peer may still acknowledge them late
+    limbo: Vec<InFlight>,
+    /// writes that returned Pending: (bytes still to write, woken flag).  A fair application re-polls only when woken.
+    parked: BTreeMap<u64, (u64, Arc<Flag>)>,
     dead: Option<String>,
+}
+
+/// a waker that remembers it was invoked
+pub struct Flag(std::sync::atomic::AtomicBool);
+impl std::task::Wake for Flag {
+    fn wake(self: Arc<Self>) {
+        self.0.store(true, std::sync::atomic::Ordering::SeqCst);
+    }
 }
 
 fn sid_json(s: StreamId) -> u64 {
@@ -210,7 +222,7 @@ fn make_world(cfg: &Value) -> World {
     let conc = |local: &Value| Box::new(ConsistentConcurrency::new(g(local, "streams_bidi"), g(local, "streams_uni")));
     let mk_end = |name: &'static str, role: Role, streams: DataStreams<Broker>, broker: Broker, flow: FlowController<Broker>, params: Parameters| End {
         name, role, streams, flow, params: params.into(), broker, writers: BTreeMap::new(), readers: BTreeMap::new(),
-        written: BTreeMap::new(), nread: BTreeMap::new(), outbox: vec![], dead: None,
+        written: BTreeMap::new(), nread: BTreeMap::new(), outbox: vec![], limbo: vec![], parked: BTreeMap::new(), dead: None,
     };
     // like qconnection::builder: built from the local parameters and the remembered / default remote ones,
     // revised when the handshake delivers the peer's real parameters ("hs" op)
@@ -320,6 +332,7 @@ impl World {
                     for f in self.cli.outbox.iter_mut() {
                         f.stale = true;
                     }
+                    self.cli.limbo.clear();
                 }
                 self.cli.streams.revise_params(rejected, &self.setup.sp);
                 self.cli.flow.sender.revise_max_data(rejected, self.setup.sp.get(ParameterId::InitialMaxData).unwrap());
@@ -391,12 +404,21 @@ impl World {
                 let w = e.writers.get_mut(&sid)?;
                 let from = *e.written.get(&sid).unwrap_or(&0);
                 let data: Vec<u8> = (from..from + n).map(|i| sbyte(sid, i)).collect();
-                let (res, acc) = match w.poll_write(&mut cx, Bytes::from(data)) {
+                let flag = Arc::new(Flag(std::sync::atomic::AtomicBool::new(false)));
+                let waker = std::task::Waker::from(flag.clone());
+                let mut wcx = Context::from_waker(&waker);
+                let (res, acc) = match w.poll_write(&mut wcx, Bytes::from(data)) {
                     Poll::Ready(Ok(())) => ("ok".to_string(), n),
                     Poll::Ready(Err(er)) => (format!("err:{:?}", er).chars().take(30).collect(), 0),
                     Poll::Pending => ("pending".to_string(), 0),
                 };
                 *e.written.entry(sid).or_insert(0) += acc;
+                if res == "pending" {
+                    // the application task is now parked on this write: only a wake-up makes it try again
+                    e.parked.insert(sid, (n, flag));
+                } else {
+                    e.parked.remove(&sid);
+                }
                 json!({"ev": "write", "side": side, "sid": sid, "n": n, "acc": acc, "res": res})
             }
             "shutdown" | "flush" => {
@@ -574,11 +596,71 @@ impl World {
                 }
                 let mut fj = frame_json(&inf.wire);
                 fj["id"] = json!(inf.id);
+                if name == "lose" {
+                    e.limbo.push(inf);
+                }
                 json!({"ev": name, "side": side, "frame": fj})
+            }
+            "latedeliver" | "lateack" => {
+                // a frame that was declared lost arrives after all / is acknowledged after all (spurious loss)
+                if !self.hs_done {
+                    return None;
+                }
+                let k = a[2].as_u64().unwrap() as usize;
+                let (e, peer) = self.ends(&side);
+                let idx: Vec<usize> = e.limbo.iter().enumerate()
+                    .filter(|(_, f)| !f.stale && (name == "latedeliver" || f.delivered)).map(|(i, _)| i).collect();
+                if idx.is_empty() || (name == "latedeliver" && peer.dead.is_some()) {
+                    return None;
+                }
+                let i = idx[k % idx.len()];
+                if name == "lateack" {
+                    let inf = e.limbo.remove(i);
+                    let Wire::Stream(f, _) = &inf.wire else { unreachable!() };
+                    e.streams.on_data_acked(*f);
+                    let mut fj = frame_json(&inf.wire);
+                    fj["id"] = json!(inf.id);
+                    json!({"ev": "ack", "side": side, "frame": fj, "late": true})
+                } else {
+                    e.limbo[i].delivered = true;
+                    let (id, wire) = (e.limbo[i].id, e.limbo[i].wire.clone());
+                    let Wire::Stream(f, data) = &wire else { unreachable!() };
+                    let fty = f.frame_type();
+                    let (res, fresh) = match peer.streams.recv_frame((*f, data.clone())) {
+                        Ok(fresh) => match peer.flow.on_new_rcvd(fty, fresh) {
+                            Ok(_) => ("ok".to_string(), fresh as u64),
+                            Err(er) => (format!("err:{}", kind_of(&er)), fresh as u64),
+                        },
+                        Err(er) => (format!("err:{}", kind_of(&er)), 0),
+                    };
+                    if res.starts_with("err") {
+                        peer.dead = Some(res.clone());
+                    }
+                    let mut fj = frame_json(&wire);
+                    fj["id"] = json!(id);
+                    json!({"ev": "deliver", "from": side, "frame": fj, "res": res, "fresh": fresh, "late": true})
+                }
             }
             o => panic!("unknown op {o}"),
         };
         Some(ev)
+    }
+
+    /// every parked write whose waker fired is polled again (what the application task would do); returns the events
+    fn retry_parked(&mut self) -> Vec<Value> {
+        let mut evs = vec![];
+        for side in ["cli", "srv"] {
+            let woken: Vec<(u64, u64)> = self.ends(side).0.parked.iter()
+                .filter(|(_, (_, f))| f.0.load(std::sync::atomic::Ordering::SeqCst)).map(|(sid, (n, _))| (*sid, *n)).collect();
+            for (sid, n) in woken {
+                self.ends(side).0.parked.remove(&sid);
+                if let Some(mut ev) = self.step(&json!(["write", side, sid, n])) {
+                    ev["retry"] = json!(true);
+                    evs.push(ev);
+                }
+            }
+        }
+        evs
     }
 
     /// fair finish: no more loss; deliver, acknowledge, read and re-pack until nothing moves
@@ -618,6 +700,18 @@ impl World {
         }
         for _round in 0..400 {
             let mut progress = false;
+            for rev in self.retry_parked() {
+                if rev["res"] == "ok" {
+                    progress = true;
+                }
+                out.emit(&rev);
+                for side in ["cli", "srv"] {
+                    let frames = self.collect(side);
+                    if !frames.is_empty() {
+                        out.emit(&json!({"ev": "ctl", "side": side, "frames": frames}));
+                    }
+                }
+            }
             for side in ["cli", "srv"] {
                 if let Some(ev) = self.step_c(&json!(["pack", side, 1200]), out) {
                     let moved = ev["frames"].as_array().map(|f| !f.is_empty()).unwrap_or(false);
@@ -722,8 +816,9 @@ impl World {
                 let flush = matches!(w.poll_flush(&mut cx), Poll::Ready(Ok(())));
                 let written = *e.written.get(sid).unwrap_or(&0);
                 let peer_read = *peer.nread.get(sid).unwrap_or(&0);
+                let parked = e.parked.get(sid).map(|(n, _)| *n).unwrap_or(0);
                 out.emit(&json!({"ev": "final", "side": side, "sid": sid, "written": written, "peer_read": peer_read,
-                                 "flushed": flush, "peer_has_reader": peer.readers.contains_key(sid),
+                                 "flushed": flush, "parked": parked, "peer_has_reader": peer.readers.contains_key(sid),
                                  "quiescent": quiescent, "dead": e.dead.is_some() || peer.dead.is_some()}));
             }
         }
@@ -762,6 +857,16 @@ fn run_one(hdr: &Value, ops: &[Value], out: &mut Out) {
                 let frames = w.collect(side);
                 if !frames.is_empty() {
                     ctl.push(json!({"ev": "ctl", "side": side, "frames": frames}));
+                }
+            }
+            // woken writers try again right away
+            for rev in w.retry_parked() {
+                ctl.push(rev);
+                for side in ["cli", "srv"] {
+                    let frames = w.collect(side);
+                    if !frames.is_empty() {
+                        ctl.push(json!({"ev": "ctl", "side": side, "frames": frames}));
+                    }
                 }
             }
             (ev, ctl)
